@@ -6,9 +6,9 @@ observation of every registered object (public accessors only) before each op an
 with the observation after.
 
 THEOREMS (coq/theories/C06/Property.v, closed under the global context):
-  C06_raise_frame_fixed_partial  forall ops op h' e in scope, step all_fixed (run all_fixed ops empty) op = (h', Raise e)
+  C06_raise_frame_fixed          forall ops op h' e, step all_fixed (run all_fixed ops empty) op = (h', Raise e)
                                  -> h' = run all_fixed ops empty          (the heap itself, hence obs_all)
-  C06_raise_frame_partial        the same for current_cfg along every `clean` history (rejected op included), stated on
+  C06_raise_frame                the same for current_cfg along every `clean` history (rejected op included), stated on
                                  obs_all = public observation + ref counters + name-authority state
   proof shape: every op of the repaired model is `validate; mutate`; multi-element ops validate the whole argument list
   first (forallb), so a failure at ANY position k returns the input heap; replace_all_uses_with(replace_graph_outputs)
@@ -17,8 +17,11 @@ THEOREMS (coq/theories/C06/Property.v, closed under the global context):
   C06_graphnew_refuted           the OPEN site (Graph(...) rejected midway), about current_cfg
   C06_<site>_refuted_before_fix x8   raise + changed observation under original_cfg (the code before /repo c5c2382, dff454e) at
                                  SIOExtend SIOInsert SIOSetItem SInitSetItem SNameEmpty SGExtend SGInsert, replace_all_uses_with(rgo)
-PARTIAL, what is missing: `in_scope` excludes Graph(...) with arguments; GSort's cycle rejection, rename_values and the
-other convenience functions are outside the model (oracle-only stream; GSort atomicity belongs to C12).
+FULL since the deepening round (see c01.py): no `in_scope`; Graph(...) with arguments, popitem/update/setdefault/|= and
+Graph.sort (cycle -> nothing touched) are inside the frame theorem.  OPEN site in the model: C06_initupdate_refuted
+(initializers.update({ok, rejected}) keeps `ok`; finding init-update-partial, proposed_fixes/
+C06-initializers-update-validate-first.diff: 772 tests pass, tie clean with VERIF_C01_FIXED=SInitUpdate).  rename_values
+and the other convenience functions stay oracle-only.
 
 MULTI-GRAPH STREAM (oracle-only, added after two seeded changes escaped): gen_nested_sort builds a top graph with 2-8
 If-like nodes whose bodies (one possibly holding a further nested body) are acyclic but randomly permuted, exactly one
@@ -99,7 +102,8 @@ def run(ck) -> None:
     C.run_check(ck, "c06")
     C.print_broken(ck)
     ck.level = "proof"
-    ck.notes.append("C06_raise_frame proved as _partial: Graph(...) with arguments is outside in_scope")
+    ck.notes.append("C06_raise_frame_fixed / C06_raise_frame are full statements over the 36-op alphabet; open model site: "
+                    "SInitUpdate (init-update-partial); convenience functions and stepped slices are oracle-only")
 
 
 def replay(rp: dict) -> int:
